@@ -2,7 +2,8 @@
 import itertools
 import vlib
 ID = 'C18'
-LEAN_MODULES = ['TboxModel.C18.Props', 'TboxModel.C18.SemWidth', 'TboxModel.C18.Progress', 'TboxModel.C18.Props5', 'TboxModel.C18.Compact']
+LEAN_MODULES = ['TboxModel.C18.Props', 'TboxModel.C18.SemWidth', 'TboxModel.C18.Progress', 'TboxModel.C18.Props5', 'TboxModel.C18.Compact',
+                'TboxModel.C18.ProgressBC', 'TboxModel.C18.ProgressCD', 'TboxModel.C18.ProgressWP', 'TboxModel.C18.NoCorrupt']
 EXE = 'c18'
 THEOREMS = ['Tbox.C18.C18_reachable_inv', 'Tbox.C18.C18_channel_fifo_once', 'Tbox.C18.C18_mutex_exclusive',
             'Tbox.C18.C18_semaphore_bound', 'Tbox.C18.C18_no_lost_wakeup', 'Tbox.C18.C18_no_lost_wakeup_quiescent',
@@ -24,7 +25,14 @@ THEOREMS = ['Tbox.C18.C18_reachable_inv', 'Tbox.C18.C18_channel_fifo_once', 'Tbo
             'Tbox.C18.C18_locker_dtor_foreign_noop', 'Tbox.C18.C18_locker_holds_unless_cancelled', 'Tbox.C18.C18_locker_unwind_releases',
             'Tbox.C18.C18_locker_releases_on_return', 'Tbox.C18.C18_locker_cancel_inside_scope',
             'Tbox.C18.C18_locker_scope_not_exclusive_counterexample', 'Tbox.C18.C18_locker_same_mutex_not_recursive_counterexample',
-            'Tbox.C18.C18_resume_self', 'Tbox.C18.C18_act_on_fresh_token', 'Tbox.C18.C18_compact_eq', 'Tbox.C18.C18_stepC_eq']
+            'Tbox.C18.C18_resume_self', 'Tbox.C18.C18_act_on_fresh_token', 'Tbox.C18.C18_compact_eq', 'Tbox.C18.C18_stepC_eq',
+            # round 6: Broadcast progress under the ORDER hypothesis (exact for the class), no reachable state is corrupt
+            'Tbox.C18.C18_progress_broadcast', 'Tbox.C18.C18_progress_broadcast_iff', 'Tbox.C18.C18_progress_broadcast_unordered_hangs',
+            'Tbox.C18.C18_progress_broadcast_post_first_counterexample',
+            'Tbox.C18.C18_progress_condition', 'Tbox.C18.C18_progress_condition_iff',
+            'Tbox.C18.C18_progress_condition_missing_key_counterexample', 'Tbox.C18.C18_progress_condition_post_before_add_counterexample',
+            'Tbox.C18.C18_progress_waitpost', 'Tbox.C18.C18_progress_waitpost_iff', 'Tbox.C18.C18_progress_waitpost_order_counterexample',
+            'Tbox.C18.C18_never_corrupt', 'Tbox.C18.C18_step_not_corrupt', 'Tbox.C18.C18_run_not_corrupt']
 SOURCES = ['modules/coroutine/scheduler.cpp'] + vlib.EVENT_SOURCES + vlib.BASE_SOURCES
 FLAVOUR = 'plain'      # ASan does not follow swapcontext (false positives); see DESIGN §6 C18
 LIBS = ['-ldl']
@@ -468,6 +476,205 @@ def gen_matched2(rng):
     return ['def 0 ' + (','.join(d) or '-') for d in defs] + ['new %d 1' % i for i in range(len(defs))] + ['pass'] * (total + 4)
 
 
+# ---- "posted by the main context" program class (Broadcast waiters / Condition waiters that add their own keys): ordered programs end
+# with every routine dead, a near miss (one needed post before the `new`, dropped, or two posts swapped) leaves a routine suspended for ever.
+def _bc_ops(defs, evs):
+    """defs: list of lists of broadcast indices (script = b<k>,...); evs: ('n', d) new | ('p', k) main post | ('-',) pass"""
+    ops = ['def 0 ' + ','.join('b%d' % k for k in d) for d in defs]
+    for e in evs:
+        ops.append('new %d 1' % e[1] if e[0] == 'n' else 'main p%d' % e[1] if e[0] == 'p' else 'pass')
+    return ops + ['pass']
+
+
+def _bc_hung(defs, evs):
+    """oracle used only to CHOOSE cases: routines left suspended (greedy left-to-right matching of each routine's waits against later posts)"""
+    waiting = []
+    for e in evs:
+        if e[0] == 'n':
+            waiting.append(list(defs[e[1]]))
+        elif e[0] == 'p':
+            for w in waiting:
+                if w and w[0] == e[1]:
+                    w.pop(0)
+    return sum(1 for w in waiting if w)
+
+
+def _bc_near(defs, evs):
+    """every one-step perturbation (drop a post / move a post before an earlier `new` / swap two neighbouring posts) that breaks the order"""
+    out = []
+    P = [i for i, e in enumerate(evs) if e[0] == 'p']
+    N = [i for i, e in enumerate(evs) if e[0] == 'n']
+    for i in P:
+        out.append(('drop', evs[:i] + evs[i + 1:]))
+        for j in N:
+            if j < i:
+                out.append(('move', evs[:j] + [evs[i]] + evs[j:i] + evs[i + 1:]))
+    for a, b in zip(P, P[1:]):
+        if evs[a] != evs[b]:
+            s = list(evs); s[a], s[b] = s[b], s[a]
+            out.append(('swap', s))
+    res, seen = [], set()
+    for kind, e in out:
+        h = _bc_hung(defs, e)
+        if h >= 1 and tuple(e) not in seen:
+            seen.add(tuple(e)); res.append((kind, e, h))
+    return res
+
+
+def _cd_ops(ks, evs):
+    """definition i = waiter on condition ks[i] (ca:1, ca:2, cw); evs: ('n', i) | ('c', k, v) main Condition::post | ('-',)"""
+    ops = ['def 0 ca%d:1,ca%d:2,cw%d' % (k, k, k) for k in ks]
+    for e in evs:
+        ops.append('new %d 1' % e[1] if e[0] == 'n' else 'main cp%d:%d' % (e[1], e[2]) if e[0] == 'c' else 'pass')
+    return ops + ['pass']
+
+
+def order_families(full=False):
+    """directed, deterministic: Broadcast waiters posted by the main context; Condition waiters (each adds its own keys) posted by the main
+    context; the same with a designated poster ROUTINE created last. `full` (thorough) = every near miss instead of <= 2 per program."""
+    n, p, ps = (lambda d: ('n', d)), (lambda k: ('p', k)), ('-',)
+    bases = []
+    # several waiters on one broadcast
+    for nw in (2, 3, 5):
+        bases.append(([[0]], [n(0)] * nw + [p(0)]))
+    # the same routine re-waits on the same broadcast: three separate posts; a second instance joins late; posts with nobody waiting (p1)
+    bases.append(([[0, 0, 0]], [n(0), p(0), p(1), p(0), p(0)]))
+    bases.append(([[0, 0, 0], [0]], [p(0), n(0), p(0), n(1), n(0), p(0), p(1), p(0), p(0)]))
+    # different broadcasts, opposite orders, a one-shot waiter
+    bases.append(([[0, 1], [1, 0], [0]], [n(0), n(1), n(2), p(0), p(1), p(0), p(1)]))
+    bases.append(([[0, 1, 2, 3], [3, 2, 1, 0]], [n(0), n(1), p(0), p(1), p(2), p(3), p(2), p(1), p(0)]))
+    # `new` interleaved with the posts; extra posts before anybody waits and after everybody is done
+    bases.append(([[0, 1], [1]], [p(0), p(1), n(0), p(0), n(1), n(1), p(1), n(0), p(2), p(0), p(1), p(3)]))
+    bases.append(([[2, 2], [2, 3, 2]], [n(0), n(1), p(2), n(0), p(3), p(2), p(2), p(3)]))
+    bases.append(([[1, 0, 1, 0], [0, 1], [1]], [n(0), p(1), n(1), n(2), p(0), ps, p(1), p(0), n(0), p(1), p(0), p(1), p(0)]))
+    for bi, (defs, evs) in enumerate(bases):
+        assert _bc_hung(defs, evs) == 0
+        yield _bc_ops(defs, evs)
+        near = _bc_near(defs, evs)
+        if not full:
+            # at most two per program: rotate over the kinds, prefer the sharp edge (exactly one routine left suspended)
+            pick = []
+            for kind in (('drop', 'move', 'swap') * 2)[bi % 3:][:3]:
+                c = [x for x in near if x[0] == kind and x[2] == 1] or [x for x in near if x[0] == kind]
+                if c and len(pick) < 2:
+                    pick.append(c[(bi // 3) % len(c)])
+            near = pick
+        for _, e, _ in near:
+            yield _bc_ops(defs, e)
+    # ---- Condition, "the waiter adds, the main context posts": even index = kAll (both keys, after the `new`), odd = kAny (one key after)
+    c = lambda k, v: ('c', k, v)
+    for k in range(PR):
+        k2 = (k + 1) % PR                                  # a companion waiter on another condition, always served
+        comp = [n(1), c(k2, 2), c(k2, 1)]
+        if k % 2 == 0:
+            good = [[n(0), c(k, 1), c(k, 2)], [n(0), c(k, 2), c(k, 7), c(k, 1)], [c(k, 1), n(0), c(k, 2), c(k, 2), c(k, 1)]]
+            bad = [[c(k, 1), n(0), c(k, 2)], [c(k, 2), c(k, 1), n(0), c(k, 1)], [n(0), c(k, 1), c(k, 1), c(k, 3)], [n(0), c(k, 2)]]
+        else:
+            good = [[n(0), c(k, 1)], [n(0), c(k, 7), c(k, 2)], [c(k, 1), n(0), c(k, 2)]]
+            bad = [[c(k, 1), n(0)], [c(k, 2), c(k, 1), n(0), c(k, 3)], [n(0), c(k, 0), c(k, 3)]]
+        for evs in (good + bad if k < 2 else good[:1] + bad[:2]):
+            yield _cd_ops([k, k2], evs[:1] + comp[:1] + evs[1:] + comp[1:])
+    # all four conditions at once, posts interleaved; then with one needed post moved before its waiter exists / dropped
+    allc = [n(0), n(1), c(0, 1), n(2), c(1, 2), c(2, 2), n(3), c(0, 2), c(3, 1), c(2, 1)]
+    yield _cd_ops([0, 1, 2, 3], allc)
+    yield _cd_ops([0, 1, 2, 3], [c(2, 2)] + [e for e in allc if e != c(2, 2)])
+    yield _cd_ops([0, 1, 2, 3], [e for e in allc if e != c(0, 2)])
+    yield _cd_ops([0, 1, 2, 3], [c(3, 1)] + [e for e in allc if e != c(3, 1)])
+    # the one waiter re-arms its condition (second round with a new key): a key of the PREVIOUS round must be a no-op (kAny clears every
+    # key on the first post; kAll has consumed them one by one), so posting it instead of the new key leaves the waiter suspended
+    for k in range(PR):
+        two = ['def 0 ca%d:1,ca%d:2,cw%d,ca%d:%d,cw%d' % (k, k, k, k, 3 if k % 2 else 1, k), 'new 0 1']
+        first = ['main cp%d:1' % k] + (['main cp%d:2' % k] if k % 2 == 0 else [])
+        yield two + first + ['main cp%d:%d' % (k, 3 if k % 2 else 1), 'pass']
+        yield two + first + ['main cp%d:2' % k, 'pass']
+    # the MAIN context add()s the keys, the routine only waits, the main context posts (near miss: a value that was never added / one short)
+    for k in (0, 1, 2):
+        pre = ['def 0 cw%d' % k, 'def 0 b2', 'main ca%d:1' % k] + (['main ca%d:2' % k] if k % 2 == 0 else []) + ['new 0 1', 'new 1 1']
+        need = ['main cp%d:1' % k] + (['main cp%d:2' % k] if k % 2 == 0 else [])
+        yield pre + need + ['main p2', 'pass']
+        yield pre + need[:-1] + ['main cp%d:3' % k, 'main p2', 'pass']
+    # ---- a designated poster ROUTINE created after all the waiters: posts made in ONE switch are simultaneous for a re-waiting routine
+    W = ['def 0 b0', 'def 0 b1', 'def 0 b0,b1', 'def 0 b0,b0,b0']
+    for poster, mk in (('p0,y,p1', [0, 1, 2, 2]), ('p0,p1', [0, 1, 2]), ('p1,y,p0', [0, 1, 2]), ('p1,p0,y,p1', [2, 1, 0, 2]),
+                       ('p0,y,p0,y,p0', [3, 3, 0]), ('p0,p0,y,p0', [3, 0]), ('p0,y,y,p0,p1,y,p0', [3, 2]), ('p0,y,p0', [3, 3])):
+        yield W + ['def 0 ' + poster] + ['new %d 1' % d for d in mk] + ['new 4 1', 'pass', 'pass', 'pass', 'pass']
+    CW = ['def 0 ca0:1,ca0:2,cw0', 'def 0 ca1:1,ca1:2,cw1', 'def 0 ca2:1,ca2:2,cw2']
+    for poster in ('cp0:1,cp0:2,cp1:2,cp2:2,cp2:1', 'cp0:1,cp1:3,cp2:2,y,cp2:2', 'cp0:2,y,cp1:1,cp0:1,cp2:1', 'cp0:1,cp0:1,cp1:0,y,cp2:1,cp2:2'):
+        yield CW + ['def 0 ' + poster, 'new 0 1', 'new 1 1', 'new 2 1', 'new 3 1', 'pass', 'pass']
+    # the poster satisfies the condition and add()s a fresh key in the SAME switch, before the woken waiter has run: the waiter must leave
+    # that key alone (post() has already released the registration), its second wait() is served by the poster's later post
+    for k in (0, 1):
+        keys = 'ca%d:1,ca%d:2' % (k, k) if k == 0 else 'ca%d:1' % k
+        sat = 'cp%d:1,cp%d:2' % (k, k) if k == 0 else 'cp%d:1' % k
+        for tail in ('y,cp%d:5' % k, 'y,cp%d:1' % k):
+            yield ['def 0 %s,cw%d,cw%d' % (keys, k, k), 'def 0 %s,ca%d:5,%s,p2' % (sat, k, tail), 'def 0 b2', 'new 0 1', 'new 2 1', 'new 1 1', 'pass', 'pass', 'pass']
+
+    # ---- MIXED class: Broadcast and Condition ops in one script, condition objects SHARED between routines (one waiter slot per
+    #      condition: of two routines woken by one broadcast post the first in registration order takes it, the other's wait() is refused)
+    mx, mx2 = 'def 0 b0,ca2:1,cw2,b1', 'def 0 ca1:4,ca1:5,cw1,b0'
+    yield [mx, mx2, 'new 0 1', 'new 0 1', 'new 1 1', 'main cp1:5', 'main p0', 'main cp2:1', 'pass', 'main p1', 'pass']
+    yield [mx, mx2, 'new 0 1', 'new 0 1', 'new 1 1', 'main p0', 'main cp1:5', 'main cp2:1', 'pass', 'main p1', 'pass']   # near miss: b0 posted before the third routine gets there
+    yield [mx, 'new 0 1', 'main p0', 'main cp2:1', 'main p1', 'pass']
+    yield [mx, 'new 0 1', 'main p0', 'main p1', 'main cp2:1', 'pass']                   # near miss: suspended in Broadcast 1 for ever
+    yield [mx, 'new 0 1', 'main cp2:1', 'main p0', 'main p1', 'pass']                   # near miss: post before the add
+    yield [mx, 'main ca2:6', 'new 0 1', 'main p0', 'main cp2:1', 'main p1', 'main cp2:6', 'main p1', 'pass']   # a key added by the main context counts
+    for k in range(PR):
+        for nw in ((3, 4) if k < 2 else (3,)):
+            defs = ['def 0 b0,ca%d:%d,cw%d' % (k, v, k) for v in range(1, nw + 1)]
+            mk = ['new %d 1' % d for d in range(nw)]
+            posts = ['main cp%d:%d' % (k, v) for v in range(1, nw + 1)]
+            if k % 2 == 0:
+                yield defs + mk + ['main p0'] + posts + ['pass']
+                yield defs + mk + ['main p0'] + posts[::-1][1:] + ['pass']       # near miss: one key short (the key of a REFUSED routine counts too)
+            else:
+                yield defs + mk + ['main p0'] + posts[-1:] + ['pass']
+                yield defs + mk + ['main p0', 'main cp%d:9' % k, 'pass']          # near miss: a key nobody added
+
+
+def gen_mixed(rng):
+    """random program of the mixed class: scripts over b<k> / ca<k>:<v> / cw<k>, main ops new / pass / main p / main cp / main ca"""
+    nd = rng.choice([1, 2, 3])
+    ops = []
+    for _ in range(nd):
+        toks = []
+        for _ in range(rng.choice([1, 2, 3])):
+            k = rng.randrange(2) if rng.random() < 0.7 else rng.randrange(PR)
+            toks += ['b%d' % k] if rng.random() < 0.45 else ['ca%d:%d' % (k, rng.randrange(1, 4))] * rng.choice([0, 1]) + ['ca%d:%d' % (k, rng.randrange(1, 4)), 'cw%d' % k]
+        ops.append('def 0 ' + ','.join(toks))
+    for _ in range(rng.choice([4, 8, 12, 16])):
+        r, k = rng.random(), (rng.randrange(2) if rng.random() < 0.7 else rng.randrange(PR))
+        ops.append('new %d 1' % rng.randrange(nd) if r < 0.3 else 'main p%d' % k if r < 0.55 else 'main cp%d:%d' % (k, rng.randrange(1, 4)) if r < 0.85
+                   else 'main ca%d:%d' % (k, rng.randrange(1, 4)) if r < 0.92 else 'pass')
+    return ops + ['pass']
+
+
+def gen_ordered(rng):
+    """random member of the Broadcast class above (ordered by construction), half of the time with one random near-miss perturbation"""
+    if rng.random() < 0.25:
+        return gen_mixed(rng)
+    defs = [[rng.randrange(PR) if rng.random() < 0.4 else rng.randrange(2) for _ in range(rng.choice([1, 1, 2, 3, 4]))] for _ in range(rng.choice([1, 2, 3]))]
+    evs, waiting, left = [], [], rng.choice([1, 2, 3, 4, 5, 6])
+    while left or any(waiting):
+        r = rng.random()
+        heads = [w[0] for w in waiting if w]
+        if left and (r < 0.35 or not heads):
+            d = rng.randrange(len(defs)); evs.append(('n', d)); waiting.append(list(defs[d])); left -= 1
+            continue
+        if r < 0.45:
+            evs.append(('-',)); continue
+        k = rng.choice(heads) if heads and r < 0.92 else rng.randrange(PR)
+        evs.append(('p', k))
+        for w in waiting:
+            if w and w[0] == k:
+                w.pop(0)
+    if rng.random() < 0.5:
+        near = _bc_near(defs, evs)
+        if near:
+            sharp = [x for x in near if x[2] == 1]
+            evs = rng.choice(sharp if sharp and rng.random() < 0.7 else near)[1]
+    return _bc_ops(defs, evs)
+
+
 def big_cases(tier):
     """scale (round 5): N routines on one channel; the driver runs the model with its tables re-tabulated into arrays (`C18_stepC_eq`)"""
     for n in ((1000,) if tier == 'quick' else (1000, 10000)):
@@ -496,6 +703,8 @@ def gen(rng, tier):
         yield ops
     for ops in round5_families():
         yield ops
+    for ops in order_families(tier == 'thorough'):
+        yield ops
     n = 500 if tier == 'quick' else 6000
     for _ in range(n):
         yield gen_case(rng)
@@ -507,6 +716,8 @@ def gen(rng, tier):
         yield gen_locker(rng)
     for _ in range(n // 4):
         yield gen_matched2(rng)
+    for _ in range(n // 10):          # after every older random family: their streams are unchanged for a given seed
+        yield gen_ordered(rng)
     for ops in big_cases(tier):
         yield ops
     if tier == 'thorough':
@@ -540,7 +751,10 @@ LEVEL_TEXT = ('Lean 4 theorems over a deterministic model of the coroutine sched
               'scheduler on every run by differential execution of scripted ucontext routines on the real event loop; round 5: Mutex::Locker '
               '(RAII scripts: scopes left on return, also when cancelled inside; a failed constructor never releases another routine\'s lock), '
               'the stack_size argument of create() from 0 (clamp, patches/C18-08), Scheduler::resume() inside routines, progress for nested '
-              'critical sections under a global lock order and acyclic joins, and an array-backed execution of the model proved equal to it')
+              'critical sections under a global lock order and acyclic joins, and an array-backed execution of the model proved equal to it; '
+              'round 6: progress for Broadcast and Condition (kAll/kAny, shared objects, mixed) under an ORDER hypothesis that is a decidable '
+              'predicate on the program and is proved exact (all routines Dead iff the order semantics of wait/add/post serves every wait), '
+              'and no reachable state of the repaired code has a corrupt routine stack')
 LEVEL_NOTE = ('trusted: Lean kernel, hand-written model + differential tie (coverage bounded by the generator, measured), ucontext, Cabinet; '
               'no sanitizer on the implementation side (plain flavour; a valgrind memcheck sample runs in both tiers, larger in thorough)')
 TECHNIQUE = 'Lean 4 invariant proof over all executions of a scheduler model + model/implementation correspondence check'
